@@ -269,6 +269,7 @@ def correspondence(spec, tier, seed, run_dir, extra_args=None):
 
 def oracle_search(spec, seed, run_dir, budget):
     """property oracle on the implementation only"""
+    os.makedirs(run_dir, exist_ok=True)
     out_file = os.path.join(run_dir, 'search.txt')
     cmd = [harness_bin(spec['id']), 'search', '--seed', str(seed), '--budget', str(budget), '--out', out_file]
     rc, out, dt = sh(cmd, timeout=spec.get('search_timeout', 1800))
